@@ -163,11 +163,26 @@ class NodeTestNode(Node):
 class Axis(Node):
     __slots__ = ("generator",)
 
+    _names = frozenset(
+        (
+            "ancestor",
+            "ancestor-or-self",
+            "child",
+            "descendant",
+            "descendant-or-self",
+            "following",
+            "following-sibling",
+            "parent",
+            "preceding",
+            "preceding-sibling",
+            "self",
+        )
+    )
+
     def __init__(self, name: str):
-        generator = getattr(self, name.replace("-", "_"), None)
-        if generator is None:
+        if name not in self._names:
             raise XPathParsingError(message="Invalid axis specifier.")
-        self.generator = generator
+        self.generator = getattr(self, name.replace("-", "_"))
 
     def __eq__(self, other):
         return (
